@@ -31,6 +31,7 @@ type FuncContract struct {
 	Panics      []*Clause // exact panic conditions; absent => must not panic
 	Raises      []*Clause // exact panic conditions that callers may let propagate (fail-closed faults)
 	Invs        []*Clause
+	Lemmas      []*Clause // proof steps at a return: each is proved from what precedes it, then assumed for the following lemmas and postconditions (not visible to callers)
 	Specs       []*Clause // package section: definitions of spec functions, assumed in every function of the package
 	PkgInvs     []*Clause // package section: facts about never-written package state, proved as postconditions of init
 	CallGhosts  []*CallGhost
@@ -80,7 +81,7 @@ type ContractSet struct {
 	Order []string
 }
 
-var clauseHead = regexp.MustCompile(`^(requires|ensures|trusted-ensures|panics|raises|assume|spec|invariant)\s*(\[[^\]]*\])?\s*([A-Za-z0-9_\-\.]+)\s*:\s*(.*)$`)
+var clauseHead = regexp.MustCompile(`^(requires|ensures|trusted-ensures|panics|raises|assume|spec|invariant|lemma)\s*(\[[^\]]*\])?\s*([A-Za-z0-9_\-\.]+)\s*:\s*(.*)$`)
 var retGhostHead = regexp.MustCompile(`^atreturn\s+ghost\s+([A-Za-z_][A-Za-z0-9_]*)(\[(.*?)\])?\s*=\s*(.*)$`)
 var ghostSetHead = regexp.MustCompile(`^loop\s+(\d+)\s+ghost\s+([A-Za-z_][A-Za-z0-9_]*)\s*=\s*(.*)$`)
 var ghostUpdHead = regexp.MustCompile(`^loop\s+(\d+)\s+ghost\s+([A-Za-z_][A-Za-z0-9_]*)\[(.*?)\]\s*=\s*(.*)$`)
@@ -150,6 +151,8 @@ func parseContractFile(path string, cs *ContractSet) error {
 			switch c.Kind {
 			case "requires", "assume":
 				cur.Requires = append(cur.Requires, c)
+			case "lemma":
+				cur.Lemmas = append(cur.Lemmas, c)
 			case "spec":
 				cur.Specs = append(cur.Specs, c)
 			case "invariant":
